@@ -1,4 +1,4 @@
-CONSTANTS MaxParams = 9 MaxVars = 9 Pool = "large" MaxCalls = 1 Mutant = "none"
+CONSTANTS MaxParams = 9 MaxVars = 9 Pool = "large" MaxCalls = 1 OptFields = {"name", "other", "type"} MaxPages = 3 Mutant = "none"
 SPECIFICATION TSpec
 CONSTRAINT Progress
 INVARIANT Inv_Explicit
@@ -9,5 +9,6 @@ INVARIANT Inv_Encoded
 INVARIANT Inv_Agree
 INVARIANT Inv_Fold
 INVARIANT Inv_FoldDecl
+INVARIANT Inv_Bounded
 POSTCONDITION Accepted
 CHECK_DEADLOCK FALSE
